@@ -418,6 +418,17 @@ class Tree:
             e = hirq.strip(e["a"])
         return e.get("e") == "path" and e.get("local") in self.state_locals
 
+    def _mut_int_local(self, a):
+        """`&mut x` where x is an integer local of the current frame"""
+        a0 = a
+        if not (isinstance(a0, dict) and a0.get("e") == "addr" and a0.get("mut")):
+            a0 = hirq.strip(a0) if isinstance(a0, dict) else a0
+            return None
+        x = hirq.strip(a0["a"])
+        if x.get("e") == "path" and "local" in x and isinstance(self.env.get(x["local"]), int) and not isinstance(self.env.get(x["local"]), bool):
+            return x["local"]
+        return None
+
     def _try_value(self, e):
         try:
             return self.value(e)
@@ -473,6 +484,12 @@ class Tree:
                 if self.dom == "length" and isinstance(self.env.get(a0.get("local")), int):
                     self.env[p_["name"]] = self.env[a0["local"]]
                     write_back.append((p_["name"], a0["local"]))
+                continue
+            ml = self._mut_int_local(a)
+            if ml is not None:
+                # a counter lent by `&mut`: the callee's updates are the caller's
+                self.env[p_["name"]] = self.env[ml]
+                write_back.append((p_["name"], ml))
                 continue
             v = self._try_value(a)
             if v is not None:
